@@ -139,11 +139,18 @@ const (
 	kNum
 )
 
-var kindNames = []string{"max_data", "sd_bidi_local", "sd_bidi_remote", "sd_uni", "streams_bidi", "streams_uni", "cid", "datagram", "idle", "udp", "cid_rotate"}
+var kindNames = []string{"max_data", "sd_bidi_local", "sd_bidi_remote", "sd_uni", "streams_bidi", "streams_uni", "cid", "datagram", "idle", "udp", "cid_rotate", "streams_uni_after_completion", "streams_bidi_after_completion"}
 
 // kCIDRotate: a simlimits scenario (not a component of the limit vectors): connection ID
 // rotation with Retire Prior To at the advertised active_connection_id_limit.
 const kCIDRotate = kNum
+
+// further simlimits scenarios: k peer streams are completed (and deleted on the client) first,
+// then the peer opens as many streams as it may rely on
+const (
+	kStreamsUniDone  = kNum + 1
+	kStreamsBidiDone = kNum + 2
+)
 
 // transport parameter IDs (RFC 9000 section 18.2, RFC 9221) as THIS reader knows them; the
 // model takes them from the generated constants instead.
@@ -318,7 +325,7 @@ func (e aeEvent) coq() string {
 }
 
 func (e aeEvent) String() string {
-	return fmt.Sprintf("%s(%d,%d)", []string{"data", "open", "cid", "dgram", "cid-rotate", "client-rotate", "read", "finish-uni", "data-to-window", "open-to-limit", "data-contiguous"}[e.kind], e.ty, e.n)
+	return fmt.Sprintf("%s(%d,%d)", []string{"data", "open", "cid", "dgram", "cid-rotate", "client-rotate", "read", "finish-uni", "data-to-window", "open-to-limit", "data-contiguous", "open-to-peer-credit"}[e.kind], e.ty, e.n)
 }
 
 // prober tracks what the (simulated) peer has used so far and turns abstract events into frames.
@@ -333,6 +340,23 @@ type prober struct {
 	read      [3]int64 // bytes the application has read
 	sparse    [3]bool  // a gap exists: no more contiguous data on this stream
 	fail      func(key, desc string)
+	adv       [kNum]int64 // what the client advertised (the peer's initial credit)
+	credit    [6]int64    // game counters 0..5: the credit the peer may rely on = max(advertised, MAX_* frames seen)
+	creditSet bool
+	keyPrefix string // "advenf/<client>"
+}
+
+// kinds of the limit vectors for the game counters KConn, KSD0, KSD1, KSD2, KSB, KSU
+var advenfCounterKind = [6]int{kMaxData, kSDBidiLocal, kSDBidiRemote, kSDUni, kStreamsBidi, kStreamsUni}
+
+func (p *prober) peerCredit(k int) int64 {
+	if !p.creditSet {
+		for i, kk := range advenfCounterKind {
+			p.credit[i] = p.adv[kk]
+		}
+		p.creditSet = true
+	}
+	return p.credit[k]
 }
 
 var dataStreamID = [3]uint64{0, 1, 3}
@@ -434,6 +458,13 @@ func (p *prober) normalize(e aeEvent) (aeEvent, bool) {
 			return e, false
 		}
 		return aeEvent{kind: 1, ty: 2, n: n}, n >= 1
+	case 11:
+		// uni streams up to what the PEER may rely on: max(advertised, MAX_STREAMS seen) + n
+		n := p.peerCredit(5) + e.n - p.opened[2]
+		if n > 3000 {
+			return e, false
+		}
+		return aeEvent{kind: 1, ty: 2, n: n}, n >= 1
 	case 7:
 		return e, p.opened[2] >= 1 // stream number 1 is the data stream, it is not finished
 	case 6:
@@ -468,6 +499,18 @@ func (p *prober) flushed() (recs []obsRec, retired int) {
 			retired++
 		}
 		if k >= 0 {
+			// property monitor: a limit the client announces must never be below what it advertised
+			// before (initial transport parameter or an earlier frame): the peer relies on the maximum
+			if had := p.peerCredit(k); v < had && p.fail != nil {
+				suffix := "/grant-below-advertised"
+				if k >= 4 {
+					suffix = "/after-completion"
+				}
+				p.fail(p.keyPrefix+"/"+kindNames[advenfCounterKind[k]]+suffix,
+					fmt.Sprintf("the client sent %T with %d although it had advertised %d before (the peer keeps relying on %d)", f, v, had, had))
+			} else if v > had {
+				p.credit[k] = v
+			}
 			now := p.vc.EnforcedNow(k)
 			recs = append(recs, obsRec{u.App("EvGrant", advenfKindCoq[k], u.Z(v)), now, fmt.Sprintf("%T{%d}", f, v)})
 			// property monitor: the limit just advertised must be enforced (at least)
@@ -801,7 +844,11 @@ func genEvents(r *u.Rng, adv, enf [kNum]int64) []aeEvent {
 			for j := r.Range(1, 3); j > 0; j-- {
 				evs = append(evs, aeEvent{kind: 7})
 			}
-			evs = append(evs, aeEvent{kind: 9, n: int64(r.Intn(2))})
+			if r.Bool() {
+				evs = append(evs, aeEvent{kind: 9, n: int64(r.Intn(2))})
+			} else {
+				evs = append(evs, aeEvent{kind: 11, n: int64(r.Intn(2))})
+			}
 		case 5:
 			// the peer rotates: retires k stored IDs (incl. the one in use), adds one
 			k := []int64{1, 1, 2, cids}[r.Intn(4)]
@@ -1202,17 +1249,22 @@ func runAdvEnf(w *bufio.Writer, seed uint64, n int, args []string) {
 
 			// probes
 			evs := genEvents(u.NewRng(evSeed), adv, genf)
-			pr := &prober{vc: vc}
+			pr := &prober{vc: vc, adv: adv, keyPrefix: "advenf/" + clientKey(client)}
 			var obs []string
 			sawErr := false
 			var evStrs []string
-			for _, e := range evs {
-				e, ok := pr.normalize(e)
+			for _, orig := range evs {
+				e, ok := pr.normalize(orig)
 				if !ok {
 					continue
 				}
 				pr.fail = func(key, d string) { monfail(key, d, desc) }
-				recs, code, _ := pr.exec(e, pr.fail)
+				recs, code, msg := pr.exec(e, pr.fail)
+				if orig.kind == 11 && orig.n == 0 && code != 0 {
+					monfail(pr.keyPrefix+"/streams_uni/after-completion",
+						fmt.Sprintf("after completed streams the peer opens streams up to the limit it may rely on (max of the advertised value and the MAX_STREAMS frames seen) and gets transport error 0x%x (%s)", code, msg),
+						fmt.Sprintf("%s advertised=%v probes=%v then %s", desc, adv, evStrs, e))
+				}
 				for _, rc := range recs {
 					obs = append(obs, u.Pair(rc.coq, u.Z(rc.code)))
 					evStrs = append(evStrs, fmt.Sprintf("%s=>%d", rc.desc, rc.code))
@@ -1272,6 +1324,13 @@ func runAdvEnf(w *bufio.Writer, seed uint64, n int, args []string) {
 				}
 				vk.ApplyPeer(peer)
 				variants := [][]aeEvent{pevs}
+				afterCompletion := -1
+				if k == kStreamsUni && adv[kStreamsUni] >= 3 && adv[kStreamsUni] <= 2900 {
+					// stream #1 stays open, #2 and #3 are finished by the peer and consumed by the application
+					// (two MAX_STREAMS), then the peer opens streams up to the limit it may rely on
+					afterCompletion = len(variants)
+					variants = append(variants, []aeEvent{{1, 2, 1}, {7, 0, 0}, {7, 0, 0}, {11, 0, 0}}, []aeEvent{{1, 2, 1}, {7, 0, 0}, {11, 0, 0}})
+				}
 				if k == kCID {
 					// the same after the client's own post-handshake rotation (it retires sequence number 0,
 					// the peer replaces it and then rotates at the boundary)
@@ -1286,15 +1345,25 @@ func runAdvEnf(w *bufio.Writer, seed uint64, n int, args []string) {
 						}
 						vk.ApplyPeer(peer)
 					}
-					pk := &prober{vc: vk}
+					pk := &prober{vc: vk, adv: adv, keyPrefix: "advenf/" + clientKey(client)}
+					pk.fail = func(key, d string) { monfail(key, d, fmt.Sprintf("%s advertised=%v push=%v", desc, adv, evs)) }
 					for _, e := range evs {
 						e, ok := pk.normalize(e)
 						if !ok {
 							continue
 						}
-						code, msg := pk.do(e)
+						var code int64
+						var msg string
+						if afterCompletion >= 0 && vi >= afterCompletion {
+							_, code, msg = pk.exec(e, pk.fail)
+						} else {
+							code, msg = pk.do(e)
+						}
 						if code != 0 {
 							lb := label(client, k, cfg, need, genf)
+							if afterCompletion >= 0 && vi >= afterCompletion {
+								lb = "after-completion"
+							}
 							dist["push-error/"+lb]++
 							monfail("advenf/"+clientKey(client)+"/"+kindNames[k]+"/"+lb,
 								fmt.Sprintf("a peer within the advertised %s limit gets transport error 0x%x (%s)", kindNames[k], code, msg),
